@@ -36,3 +36,8 @@ func VerifPathOID(p *Path) (git.OID, bool) {
 	}
 	return p.OID, true
 }
+
+// VerifNewPath builds a *Path with the given (unexported) fields.
+func VerifNewPath(oid git.OID, objectType string, relativePath string, parent *Path) *Path {
+	return &Path{OID: oid, objectType: objectType, seekerCount: 1, parent: parent, relativePath: relativePath}
+}
